@@ -66,9 +66,22 @@ func famWriteRace(w *World, c *Case, rng *rand.Rand) {
 		}
 	}()
 	step := func() { time.Sleep(3 * time.Millisecond) }
+	// event-based synchronisation (bounded polling) so that a slow machine still reaches the state
+	waitOpen := func(rpc, side, k string) bool {
+		for i := 0; i < 3000; i++ {
+			for _, r := range w.Env.Log.Records() {
+				if r.RPC == rpc && r.Side == side && r.K == k && r.RetSeq == 0 {
+					return true
+				}
+			}
+			time.Sleep(time.Millisecond)
+		}
+		return false
+	}
 	// Y fills the held direction: its handler's first frame occupies the single slot
 	y := &RPCSpec{ID: "y", Method: "Bidi", Client: []Op{{K: "open"}, {K: "send", N: 5}, {K: "recvall"}}, Handler: []Op{{K: "recv"}, {K: "send", N: 50}, {K: "recv"}, {K: "ret"}}}
 	w.Env.StartRPC(context.Background(), w.Ch, y)
+	waitOpen("y", "handler", "recv") // y's handler has written its response and waits for more
 	step()
 	// X: the handler's first write (implicit headers + message) now blocks inside the carrier send
 	// (the handler writes before it reads: a read would first have to send a window update,
@@ -85,6 +98,9 @@ func famWriteRace(w *World, c *Case, rng *rand.Rand) {
 		x.Handler = []Op{{K: "ret"}} // the handler's own finish races the cancel
 	}
 	w.Env.StartRPC(context.Background(), w.Ch, x)
+	if variant != 3 {
+		waitOpen("x", "handler", map[int]string{0: "send", 1: "sendhdr", 2: "send"}[variant])
+	}
 	step()
 	// the client cancels X: the cancel frame flows to the server, whose receive loop finishes the stream
 	x.cancel()
